@@ -294,11 +294,11 @@ pub fn enumerate_orders(members: &[usize], cfg: &RegConfig, all_reg_orders: bool
             while seen.len() < want.len() {
                 tries += 1;
                 since_new += 1;
-                // If 3000 fresh registries in a row show no new collect order, the registry does not iterate in a
+                // If 3000 fresh registries in a row show no new collect order (300 when only one order was ever seen), the registry does not iterate in a
                 // per-instance random order (for m <= 4 a uniformly random order would have been seen with
                 // probability 1 - 24*(23/24)^3000): the orders observed so far are all there are for this
                 // registration order, and every registration order is enumerated by the caller.
-                if since_new > 3000 {
+                if since_new > 3000 || (seen.len() == 1 && since_new > 300) {
                     UNREALISED.fetch_add(1, std::sync::atomic::Ordering::Relaxed);
                     break;
                 }
